@@ -26,6 +26,17 @@ partial def tevJ (leaf : String → Bool) : List TEv → List Json
       obj [("t", "sub"), ("k", Json.str k), ("s", Json.bool s), ("leaf", Json.bool false), ("inner", Json.arr (tevJ leaf inner).toArray)])
     :: tevJ leaf r
 
+/-- every `REPEAT` / `FOR` of a structured program, with the wall-loop parameters when its body has that shape -/
+partial def loopsOf : List Stmt → List Json
+  | [] => []
+  | .atom _ :: r => loopsOf r
+  | .rep n body :: r =>
+    (match matchWallLoop body with
+     | some (q, p, dz) => obj [("kind", "repeat"), ("n", natJ n), ("wall_loop", Json.bool true), ("p", Json.str p), ("dz", ratJ dz),
+                               ("dwell", match q with | some q => ratJ q | none => Json.null)]
+     | none => obj [("kind", "repeat"), ("n", natJ n), ("wall_loop", Json.bool false)]) :: (loopsOf body ++ loopsOf r)
+  | .forr _ _ _ body :: r => obj [("kind", "for"), ("wall_loop", Json.bool false)] :: (loopsOf body ++ loopsOf r)
+
 /-- op `ctl.tree`: `{files: [[name, text]...], main, fuel}` → per-file static report, tree discipline, nested trace of `main`.
 Every event carries nothing but what the controller model computed from the real bytes. -/
 def tree (j : Json) : Except String Json := do
@@ -46,6 +57,8 @@ def tree (j : Json) : Except String Json := do
          ("balanced", Json.bool body.isSome),
          ("bad", listJ Json.str (badLines is)),
          ("leaf", Json.bool (match body with | some b => isLeafBody b | none => false)),
+         ("leaf_xy", Json.bool (match body with | some b => isLeafXY b | none => false)),
+         ("loops", Json.arr (match body with | some b => (loopsOf b).toArray | none => #[])),
          ("disciplined", Json.bool (match body with | some b => disciplined leaf b | none => false))]
   let run := runTree t fuel (fileId main)
   pure <| obj [("files", Json.arr report.toArray), ("tree_disciplined", Json.bool (treeDisciplined t)),
